@@ -117,9 +117,65 @@ def dep_dir(crate):
     raise InfraError('source of %s %s not found in the cargo registry' % (crate, ver))
 
 
+# ---- mechanical expansion of one-metavariable macro_rules! (the dependency generates `impl SeekNum for $t` this way).
+# Only the shape `macro_rules! NAME { {$($v:ty )*} => { $( BODY )* }; }` + one invocation `NAME! { T1 T2 .. }` is
+# supported; BODY is repeated once per Ti with every `$v` replaced by Ti (exactly what rustc does for this shape).
+# Anything else is an infrastructure error, never a guess.
+EXPAND_MACROS = {'dep:cipher/src/stream.rs': ['impl_seek_num']}
+MACRO_EXPANSIONS = []   # (file, macro, [types]) of this process, reported under dropped_by_extraction
+
+
+def _match_brace(text, i):
+    assert text[i] == '{'
+    d = 0
+    for j in range(i, len(text)):
+        if text[j] == '{':
+            d += 1
+        elif text[j] == '}':
+            d -= 1
+            if d == 0:
+                return j
+    raise InfraError('unbalanced braces in macro definition')
+
+
+def expand_macro(text, name, relpath):
+    m = re.search(r'macro_rules!\s+%s\s*\{' % re.escape(name), text)
+    if not m:
+        raise InfraError('macro %s not found in %s (lost anchor)' % (name, relpath))
+    o = m.end() - 1
+    c = _match_brace(text, o)
+    inner = text[o + 1:c]
+    mm = re.match(r'\s*\{\s*\$\(\s*\$(\w+)\s*:\s*ty\s*\)\*\s*\}\s*=>\s*\{', inner)
+    if not mm:
+        raise InfraError('macro %s in %s: matcher is not `{$($v:ty )*}` (unsupported shape)' % (name, relpath))
+    var = mm.group(1)
+    bo = mm.end() - 1
+    bc = _match_brace(inner, bo)
+    if inner[bc + 1:].strip() not in (';', ''):
+        raise InfraError('macro %s in %s: more than one rule (unsupported shape)' % (name, relpath))
+    body = inner[bo + 1:bc]
+    rm = re.match(r'\s*\$\(', body)
+    end = body.rstrip()
+    if not rm or not end.endswith(')*'):
+        raise InfraError('macro %s in %s: transcriber is not `$( .. )*` (unsupported shape)' % (name, relpath))
+    rep = end[rm.end():-2]
+    if re.search(r'\$(?!%s\b)' % re.escape(var), rep):
+        raise InfraError('macro %s in %s: transcriber uses more than `$%s` (unsupported shape)' % (name, relpath, var))
+    invs = list(re.finditer(r'(?m)^%s!\s*\{([^{}]*)\}' % re.escape(name), text))
+    if len(invs) != 1:
+        raise InfraError('macro %s in %s: %d invocations (expected 1)' % (name, relpath, len(invs)))
+    tys = invs[0].group(1).split()
+    if not tys or not all(re.fullmatch(r'\w+', t) for t in tys):
+        raise InfraError('macro %s in %s: invocation arguments are not plain type names' % (name, relpath))
+    out = ''.join(re.sub(r'\$%s\b' % re.escape(var), t, rep) + '\n' for t in tys)
+    MACRO_EXPANSIONS.append((relpath, name, tys))
+    return text[:invs[0].start()] + out + text[invs[0].end():]
+
+
 class Source:
     def __init__(self, relpath):
         self.relpath = relpath
+        macros = EXPAND_MACROS.get(relpath, ())
         if relpath.startswith('dep:'):
             crate, rest = relpath[4:].split('/', 1)
             d, ver = dep_dir(crate)
@@ -131,6 +187,8 @@ class Source:
             self.text = open(path, encoding='utf-8').read()
         except OSError as e:
             raise InfraError('cannot read %s: %s' % (path, e))
+        for mname in macros:
+            self.text = expand_macro(self.text, mname, self.relpath)
         try:
             self.toks, _ = lex(self.text)
             self.items = R.parse_items(self.toks, 0, len(self.toks))
